@@ -38,6 +38,9 @@ func (m *C07) OnStep(_ explore.Ghost, st *explore.Step) []V {
 	if st.Act.Kind != explore.ActMsg {
 		return nil
 	}
+	for _, d := range feeParamsAsSet(st) {
+		return []V{{Kind: "C07/fee-rates-differ-from-the-governance-message", Detail: d}}
+	}
 	// what a buyer settles against is the order as it was offered: Sell / UpdateSellOrders must store
 	// the quantity, price, denomination and auto-retire flag of the seller's message
 	if st.Res.OK {
